@@ -667,7 +667,11 @@ def call_routine(rec, world, rc, method, fitmode, use_correction=None, frozen=No
     for j, th in enumerate(world.theta or [None] * len(models), start=1):
         rec.cur_theta[j] = th
     if rt == 'fixed':
-        rec.events.append({'e': 'draw', 'd': [[], []]})
+        if rc['bootR']:
+            # fixed evaluation of a stack the caller resampled: RDMs (and 'index' values) occur repeatedly
+            data, _ = E.bootstrap_sample_rdm(data, rc['byR'])
+        else:
+            rec.events.append({'e': 'draw', 'd': [[], []]})
         res = E.eval_fixed(models, data, theta=world.theta, method=method)
     elif rt == 'boot':
         if rc['bootR'] and rc['bootP']:
@@ -1113,11 +1117,15 @@ def _replay_behaviour(rec_json, const, flavour, mode, method, fitmode, seed, the
         if a.shape != (2,) or not close(a[0], want[0]) or not close(a[1], want[1]):
             viol('d/ceiling-value', {'stored': a, 'denoted': want})
     # ---- dof
+    if rc['routine'] == 'fixed' and rc['bootR'] and any(len(set(s_['d'][0])) < len(s_['d'][0]) for s_ in rec_json['log']):
+        stats['fixed_resampled'] = 1    # eval_fixed on a stack with repeated RDMs
     if rc['bootR'] and rc['bootP'] and n_units(rc, nr, nc)[1] < n_units(rc, nr, nc)[0]:
         stats['dofP_' + name] = 1       # the smaller factor is the condition axis
     want = rec_json['dof']
     if rc['routine'] not in ('crossval', 'testset') and res.dof != want:
         cls = 'grouped-descriptor' if grouped(rc, nr, nc) else 'unique-descriptor'
+        if rc['routine'] == 'fixed':
+            cls = 'resampled-stack' if rc['bootR'] else 'plain-stack'
         bad.append((f'e/dof/{cls}/{name}', {'stored': res.dof, 'units_minus_one': want, 'rc': rc,
                                              'n_rdm': nr, 'n_cond': nc, 'units': n_units(rc, nr, nc)}))
     # ---- variances
@@ -1337,11 +1345,15 @@ def _random_run(rc, const, flavour, mode, method, fitmode, seed, theta_supplied=
                                                                     x['pidx'], rc['byP'])):
                     stats['method_sensitive'] += 1
     # dof
+    if rc['routine'] == 'fixed' and rc['bootR'] and any(e['e'] == 'draw' and len(set(e['d'][0])) < len(e['d'][0]) for e in rec.events):
+        stats['fixed_resampled'] = 1
     if rc['bootR'] and rc['bootP'] and n_units(rc, nr, nc)[1] < n_units(rc, nr, nc)[0]:
         stats['dof_cond_smaller'] = 1
     want = dof_rule(rc, nr, nc)
     if want is not None and res.dof != want:
         cls = 'grouped-descriptor' if grouped(rc, nr, nc) else 'unique-descriptor'
+        if rc['routine'] == 'fixed':
+            cls = 'resampled-stack' if rc['bootR'] else 'plain-stack'
         bad.append((f'e/dof/{cls}/{name}', {'stored': res.dof, 'units_minus_one': want, 'rc': rc, 'n_rdm': nr, 'n_cond': nc,
                                              'units': n_units(rc, nr, nc)}))
     # variances from the stored evaluations
